@@ -1,13 +1,68 @@
-"""C07: decided on the scenario model (Model/Rules.v): theorems in Properties/C07.v about what acceptance guarantees;
-tie: whole validator vs model on conformant scenarios and on single-fault mutants owned by C07."""
-import scen_check
+"""C07: action operations touch only existing fields, with the right type and mode.
+Proof: Properties/C07.v, C06_ancestry.v (guaranteed ancestry), Proofs/C08Tables.v (default-value table, T1).
+Tie: whole validator vs Coq model on conformant scenarios, operation faults, and a systematic family around
+appends_objects_to: which shape of action makes which attribute settable."""
+import random, itertools
+import scen_check, engine, scenario as S
+
 LEVEL = "proof"
 OWNERS = ("C07",)
+PROP_FILES = ["C06_ancestry"]
+
+
+def settable_family(ctx, rng):
+    """owner action f acts on promise 1 (type T with edge collection `kids` of T); appender a appends to promise 1.kids.
+    Varied: thread context (none / both in one thread group), the shape of f's depends_on (none, own checkpoint, the
+    thread group's own checkpoint repeated), whether a second action edits promise 1, and each operation form
+    that does or does not make `kids` settable."""
+    items = []
+    T = lambda: {"id": 0, "name": 100, "attrs": [{"name": 0, "kind": ("F", "STRING")}, {"name": 1, "kind": ("F", "NUMERIC_LIST")},
+                                                 {"name": 5, "kind": ("C", ("type", 0))}, {"name": 6, "kind": ("E", ("type", 0))}]}
+    op = lambda incl, defaults=(), edges=(), app=None: {"incl": incl, "defaults": list(defaults), "edges": list(edges), "appends": app}
+    forms = [("include", [0]), ("include", [0, 5]), ("include", None), ("exclude", [5]), ("exclude", [0]), ("exclude", None), ("exclude", [])]
+    for threaded, fdep, editor, form in itertools.product([False, True], ["none", "own", "group"], [False, True], forms):
+        if not threaded and fdep == "group":
+            continue
+        ctx_ref = ("group", 12) if threaded else None
+        s = {"parties": [{"id": 0, "name": 200}], "otypes": [T()], "promises": [], "actions": [], "checkpoints": [], "groups": []}
+        def act(i, prom, dep, o, c=ctx_ref):
+            s["actions"].append({"id": i, "name": 400 + i, "party": ("party", 0), "promise": ("promise", prom), "ctx": c, "dep": dep, "op": o, "milestones": []})
+        def prom(i, c=ctx_ref):
+            s["promises"].append({"id": i, "name": 300 + i, "type": ("type", 0), "ctx": c})
+        cmp_ = lambda a, tag: ("cmp", ("act", ("action", a), [0]), "EQUALS", ("lit", "SStr", tag))
+        prom(0, None)
+        act(0, 0, None, op(("include", [0])), None)                       # root creator, spawn source
+        s["checkpoints"].append({"id": 1, "alias": 501, "gate": None, "deps": [cmp_(0, 1)], "ctx": None})
+        if threaded:
+            s["groups"].append({"id": 12, "name": 612, "ctx": None, "dep": ("checkpoint", 1), "src": ("P", ("promise", 0), [1]), "var": 7})
+        # owner f = action 1 on promise 1
+        prom(1)
+        fdep_ref = None
+        if fdep == "own":
+            s["checkpoints"].append({"id": 2, "alias": 502, "gate": None, "deps": [cmp_(0, 2)], "ctx": ctx_ref})
+            fdep_ref = ("checkpoint", 2)
+        elif fdep == "group":
+            fdep_ref = ("checkpoint", 1)
+        elif not threaded:
+            fdep_ref = ("checkpoint", 1)
+        owner_form = form if not editor else ("include", [0])
+        act(1, 1, fdep_ref, op(owner_form))
+        if editor:
+            s["checkpoints"].append({"id": 3, "alias": 503, "gate": None, "deps": [cmp_(1, 3)], "ctx": ctx_ref})
+            act(3, 1, ("checkpoint", 3), op(form))
+        # appender a = action 2, depends on f, appends to promise 1 . kids
+        prom(2)
+        s["checkpoints"].append({"id": 4, "alias": 504, "gate": None, "deps": [cmp_(1, 4)], "ctx": ctx_ref})
+        act(2, 2, ("checkpoint", 4), op(("include", [0]), app=(("promise", 1), [5])))
+        r = {"spelling": rng.choice(["id", "alias", "mixed"]), "shuffle": rng.random() < 0.5, "descriptive": False, "seed": rng.randrange(1 << 30)}
+        doc = S.render(s, random.Random(r["seed"]), r["spelling"], r["shuffle"], False)
+        items.append(engine.Item(s, doc, "settable", mutator="threaded=%s owner_dep=%s editor=%s form=%s" % (threaded, fdep, editor, form),
+                                 owner="C07", desc="appends vs settable", render=r, group="settable|%s|%s|%s|%s" % (threaded, fdep, editor, form)))
+    return items
 
 
 def run(ctx):
     scen_check.scenario_check(
-        ctx, owners=OWNERS, n_valid=60, n_mut=260,
-        rule="conformant scenarios (half with thread groups, two renderings each) and single-fault mutants owned by C07 (see harness/mutators.py), each mutant applied to a fresh conformant scenario; non-trivial = every mutant and every conformant scenario with a checkpoint; distinct by abstract scenario",
-        trusted=[], prop_files=PROP_FILES if "PROP_FILES" in globals() else None)
-PROP_FILES = ["C06_ancestry"]
+        ctx, owners=OWNERS, n_valid=60, n_mut=260, extra=settable_family, prop_files=PROP_FILES,
+        rule="conformant scenarios (half with thread groups, two renderings each), single-fault mutants owned by C07, and the settable family: owner action shape (plain / threaded without, with own, with the group's repeated checkpoint) x editor present x 7 operation forms, with an action appending to the owner's edge collection; distinct by abstract scenario",
+        trusted=[])
